@@ -283,6 +283,39 @@ fn synth_cases(rep: &mut Report, rng: &mut Rng, n: usize) {
     }
 }
 
+/// context-bookkeeping records of decoded frames waiting for the model: (request line, contexts recorded by the hook)
+static CTX_LINES: std::sync::Mutex<Vec<(String, String, String)>> = std::sync::Mutex::new(Vec::new());
+
+/// turns the hook's log of one decoded frame into the `vp8ctx` request and the recorded contexts
+fn ctx_request(log: &[u32], mbw: u32, mbh: u32) -> Option<(String, String)> {
+    let mut mbs: Vec<String> = Vec::new();
+    let mut cur: Option<(u32, u32, String)> = None; // (hasY2, skipped, bits)
+    let mut recorded = String::new();
+    let mut i = 0;
+    let mut expect = (0u32, 0u32);
+    while i < log.len() {
+        match log[i] {
+            1 => {
+                if let Some((h, s, b)) = cur.take() { mbs.push(format!("{h}{s}:{b}")); }
+                if log[i + 1] != expect.0 || log[i + 2] != expect.1 { return None; }
+                expect = if expect.0 + 1 == mbw { (0, expect.1 + 1) } else { (expect.0 + 1, expect.1) };
+                cur = Some((log[i + 3], log[i + 4], String::new()));
+                i += 5;
+            }
+            2 => {
+                let c = cur.as_mut()?;
+                c.2.push(if log[i + 3] != 0 { '1' } else { '0' });
+                recorded.push(char::from(b'0' + log[i + 2] as u8));
+                i += 4;
+            }
+            _ => return None,
+        }
+    }
+    if let Some((h, s, b)) = cur.take() { mbs.push(format!("{h}{s}:{b}")); }
+    if mbs.len() as u32 != mbw * mbh { return None; }
+    Some((format!("vp8ctx {mbw} {mbh} {}", mbs.join(" ")), recorded))
+}
+
 pub fn frame_case(rep: &mut Report, file: &[u8], label: &str) {
     let Some((_, vp8)) = chunks_of(file).into_iter().find(|(cc, _)| cc == b"VP8 ") else { return };
     let simple = riff(&chunk(b"VP8 ", &vp8));
@@ -296,7 +329,21 @@ pub fn frame_case(rep: &mut Report, file: &[u8], label: &str) {
     rep.hit(&format!("frame_w{}_h{}", w % 16, h % 16).replace("w0", "w0(aligned)"));
     hk::take_max_abs_coefficient();
     hk::take_max_transform_value();
+    hk::take_ctx_log();
     let r = catch(|| image_webp::vp8::Vp8Decoder::decode_frame(Cursor::new(&vp8[..])).map_err(|e| format!("{e:?}")));
+    let ctx_log = hk::take_ctx_log();
+    if let Ok(Ok(_)) = &r {
+        let (mbw, mbh) = ((w + 15) / 16, (h + 15) / 16);
+        if mbw * mbh <= 4000 {
+            match ctx_request(&ctx_log, mbw, mbh) {
+                Some((line, rec)) => {
+                    for t in line.split(' ').skip(3) { match &t[..2] { "01" => rep.hit("ctx_mb_skipped_without_y2"), "11" => rep.hit("ctx_mb_skipped_with_y2"), "00" => rep.hit("ctx_mb_coded_without_y2"), _ => rep.hit("ctx_mb_coded_with_y2") } }
+                    let mut l = CTX_LINES.lock().unwrap(); if l.len() < 20000 { l.push((line, rec, case.clone())); }
+                }
+                None => rep.disagree(Disagreement { case: case.clone(), got: "malformed context log".into(), expected: "one record per macroblock in raster order".into(), class: "correspondence", obligation: "tie2: the context-bookkeeping hook log is well-formed".into(), detail: label.into() }),
+            }
+        }
+    }
     let maxc = hk::take_max_abs_coefficient();
     let maxt = hk::take_max_transform_value();
     if maxc > 32767 || maxt > 32767 {
@@ -432,6 +479,23 @@ pub fn run(o: &Opts) -> Report {
                     }
                 }
             }
+        }
+    }
+    // tie 2 for the context bookkeeping (model Vp8Ctx.run, for which C02.coefficient_contexts_are_rfc
+    // is proved): the complexity passed to every read_coefficients call of every decoded frame
+    let pending: Vec<(String, String, String)> = std::mem::take(&mut *CTX_LINES.lock().unwrap());
+    let lines: Vec<String> = pending.iter().map(|p| p.0.clone()).collect();
+    if std::env::var("VERIF_DUMP_CTX").is_ok() { let _ = std::fs::write("/tmp/ctxlines.txt", lines.join("\n")); }
+    let replies = ask_parallel(&o.drv, &lines, 8);
+    for ((_, rec, case), reply) in pending.iter().zip(&replies) {
+        rep.hit("context_bookkeeping_tie_frames");
+        let model = reply.split("ctx=").nth(1).unwrap_or("?");
+        if !reply.starts_with("spec=true") {
+            rep.disagree(Disagreement { case: case.clone(), got: reply.chars().take(80).collect(), expected: "spec=true".into(), class: "correspondence", obligation: "instance of theorem C02.coefficient_contexts_are_rfc (model = RFC rule)".into(), detail: String::new() });
+        }
+        if model != rec {
+            let k = model.chars().zip(rec.chars()).position(|(a, b)| a != b).unwrap_or(model.len().min(rec.len()));
+            rep.disagree(Disagreement { case: case.clone(), got: format!("call #{k}: complexity {:?}", rec.chars().nth(k)), expected: format!("call #{k}: {:?} ({} calls vs {})", model.chars().nth(k), rec.len(), model.len()), class: "violation", obligation: "C02: the context (complexity) passed to every read_coefficients call is the one RFC 6386 section 13.3 defines from the neighbouring blocks (model Vp8Ctx.run = specification, proved)".into(), detail: String::new() });
         }
     }
     rep
